@@ -15,6 +15,12 @@ EXT_DEFAULT = EXT['SMART'] | EXT['NOTES'] | EXT['CRITIC'] | EXT['TRANSCLUDE']
 EXT_COMPAT = EXT['COMPAT'] | EXT['NO_LABELS'] | EXT['OBFUSCATE'] | EXT['NO_META']   # what `-c` sets in main.c
 
 
+class WorkerTimeout(Exception):
+    def __init__(self, request):
+        Exception.__init__(self, 'worker timeout')
+        self.request = request
+
+
 class WorkerDied(Exception):
     def __init__(self, report, request):
         Exception.__init__(self, 'worker died')
@@ -66,11 +72,35 @@ class Worker:
     def _read(self, n):
         buf = b''
         while len(buf) < n:
+            if self.deadline is not None:
+                import select
+                import time
+                left = self.deadline - time.time()
+                if left <= 0 or not select.select([self.p.stdout], [], [], left)[0]:
+                    raise TimeoutError
             c = self.p.stdout.read(n - len(buf))
             if not c:
                 raise EOFError
             buf += c
         return buf
+
+    deadline = None
+
+    def call_timeout(self, seconds, *fields):
+        """Like call(), but kills the worker and raises WorkerTimeout after `seconds`."""
+        import time
+        self.deadline = time.time() + seconds
+        try:
+            return self.call(*fields)
+        except TimeoutError:
+            self.p.kill()
+            self.p.wait()
+            self.p = None
+            self.restarts += 1
+            self.start()
+            raise WorkerTimeout([_b(f) for f in fields])
+        finally:
+            self.deadline = None
 
     def call(self, *fields):
         """Returns list of byte fields: [status, ..., stderr]."""
@@ -85,6 +115,8 @@ class Worker:
                 ln = struct.unpack('<I', self._read(4))[0]
                 out.append(self._read(ln) if ln else b'')
             return out
+        except TimeoutError:
+            raise
         except (EOFError, BrokenPipeError, OSError):
             try:
                 self.p.wait(timeout=20)
